@@ -87,6 +87,36 @@ Theorem c19_gate_matches_needs :
 Proof. exact gate_matches_needs_lemma. Qed.
 Print Assumptions c19_gate_matches_needs.
 
+(* each gate follows ITS OWN need and no other: two targets that agree on the dimensions the need of a rule reads
+   ([need_reads]: a built-in function, an entry of future_keywords, an entry of features) give its `notices`
+   condition the same value, whatever else differs *)
+Theorem c19_gate_follows_its_own_need :
+  forall g, In g gated_rules ->
+  exists n, In n needs_table /\ g_cat g = nd_cat n /\ g_title g = nd_title n /\ g_severity g = nd_severity n /\
+            forall (c c' : caps) (f : file_info),
+              (forall d, In d (need_reads (nd_need n)) -> dim_on d c = dim_on d c') ->
+              eval_body c f (g_body g) = eval_body c' f (g_body g).
+Proof. exact gate_follows_its_own_need_lemma. Qed.
+Print Assumptions c19_gate_follows_its_own_need.
+
+(* the predicates of capabilities.rego as they are written now (Gen/GatedRules.v cap_pred_rules, one row per
+   `<predicate> if <condition>` rule) hold exactly when the model's [eval_pred] says so, for ALL capabilities *)
+Theorem c19_capability_predicates_as_written :
+  forall (p : cap_pred) (c : caps), pred_by_rules cap_pred_rules p c = eval_pred p c.
+Proof. exact cap_preds_as_written_lemma. Qed.
+Print Assumptions c19_capability_predicates_as_written.
+
+(* why the generated capabilities files of the check suffice: if the targets realise every on/off assignment of the
+   dimensions read by the needs ([dims_covered], evaluated by the check on the capabilities as loaded from the
+   generated files), then for ANY capabilities c one of the targets gives every gate of the tree the value it has
+   under c *)
+Theorem c19_covering_targets_suffice :
+  forall targets : list caps, dims_covered needs_table targets = true ->
+  forall c : caps, exists c0, In c0 targets /\
+    forall g f, In g gated_rules -> eval_body c0 f (g_body g) = eval_body c f (g_body g).
+Proof. exact covering_targets_suffice_lemma. Qed.
+Print Assumptions c19_covering_targets_suffice.
+
 Theorem c19_gated_rules_have_no_aggregate : gated_with_aggregate = [].
 Proof. exact gated_rules_have_no_aggregate. Qed.
 Print Assumptions c19_gated_rules_have_no_aggregate.
